@@ -98,6 +98,10 @@ func (c *PipeConn) Read(p []byte) (int, error) {
 				break
 			}
 		}
+		if n > 0 {
+			// like a real socket read: the caller's buffer was written by this thread
+			vsched.WriteRange(unsafe.Pointer(&p[0]), n)
+		}
 		return n, nil
 	}
 	if c.rd.wclosed && !c.NoEOF {
@@ -130,6 +134,10 @@ func (c *PipeConn) Write(p []byte) (int, error) {
 		return 0, net.ErrClosed
 	}
 	b := make([]byte, len(p))
+	if len(p) > 0 {
+		// like a real socket write: the caller's buffer was read by this thread
+		vsched.ReadRange(unsafe.Pointer(&p[0]), len(p))
+	}
 	copyBytes(b, p)
 	c.wr.segs = append(c.wr.segs, b)
 	c.Written = append(c.Written, b...)
@@ -165,6 +173,11 @@ func (c *PipeConn) CloseWrite() error {
 	c.wr.wclosed = true
 	return nil
 }
+
+// PeerDrained reports whether the other end has read everything this end wrote.
+//
+//go:norace
+func (c *PipeConn) PeerDrained() bool { return len(c.wr.segs) == 0 || c.wr.rclosed }
 
 // IsClosed reports whether this end was closed.
 //
